@@ -49,7 +49,7 @@ static const char *summary_path, *witness_path, *hashes_path;
 static int trace = 0;
 static const char *strategy = "mix";     /* rw | pct | mix */
 static uint64_t step_budget = 2000000;
-static int watchdog_s = 120;
+static int watchdog_s = 60;
 static struct { char name[48]; long v; } params[32];
 static int n_params;
 static int samples_wanted = 3;
@@ -83,6 +83,7 @@ struct th {
 	const char *op;
 	const char *at;           /* nsync function of the last atomic step outside the semaphore files */
 	unsigned op_sleeps, op_steps;
+	int64_t op_deadline_ns;
 	unsigned long sleeps;
 	uint64_t rng;
 	int fault_plan[32]; int n_fault; int futex_waits;
@@ -285,7 +286,7 @@ static void write_witness (const char *oracle, const char *signature, const char
 			 mode_b ? st_names[T[i].state] : (T[i].state == ST_DONE ? "DONE" : (T[i].a_blocked ? (T[i].a_timed ? "BLOCKED_TIMED" : "BLOCKED") : st_names[T[i].state])));
 		json_str (f, T[i].op ? T[i].op : "");
 		fprintf (f, ",\"at\":"); json_str (f, T[i].at ? T[i].at : "");
-		fprintf (f, ",\"timed\":%d,\"sleeps\":%lu}", mode_b ? T[i].timed : T[i].a_timed, T[i].sleeps);
+		fprintf (f, ",\"timed\":%d,\"sleeps\":%lu,\"api_deadline_ns\":%lld}", mode_b ? T[i].timed : T[i].a_timed, T[i].sleeps, (long long) (T[i].op ? T[i].op_deadline_ns : 0));
 	}
 	fprintf (f, "]");
 	if (rt_scen.describe) { fprintf (f, ",\"round_description\":"); rt_scen.describe (f); }
@@ -545,7 +546,8 @@ void rt_sleep_us (unsigned us) {
 	if (mode_b) { vclock_ns += (int64_t) us * 1000; sched_point (0); }
 	else { raw_sleep_ns ((long) (us / 1000000), (long) (us % 1000000) * 1000); }
 }
-void rt_op_begin (const char *op) { if (me >= 0) { T[me].op = op; T[me].at = NULL; T[me].op_sleeps = 0; T[me].op_steps = 0; } }
+void rt_op_deadline (int64_t d) { if (me >= 0) T[me].op_deadline_ns = d; }
+void rt_op_begin (const char *op) { if (me >= 0) { T[me].op = op; T[me].at = NULL; T[me].op_deadline_ns = 0; T[me].op_sleeps = 0; T[me].op_steps = 0; } }
 void rt_op_end (void) { if (me >= 0) T[me].op = NULL; }
 unsigned rt_op_sleeps (void) { return (me >= 0 ? T[me].op_sleeps : 0); }
 unsigned rt_op_steps (void) { return (me >= 0 ? T[me].op_steps : 0); }
